@@ -9,6 +9,7 @@
    The string level (tokenizer + parser) is in ExpandFlat.v / ExpandRepeat.v. *)
 From Emmet Require Import lib.Base model.MarkupTokenizer model.MarkupParser model.MarkupConvert
      model.MarkupResolve model.OutStream model.FormatHtml model.FormatIndent model.MarkupExpand.
+From Emmet Require Import model.MarkupBem proofs.BemProofs.
 From Emmet Require Import proofs.ParserSpine proofs.TokenizeRender proofs.NumberingProofs proofs.ConvertProofs
      proofs.SafeResolve proofs.IndentStream proofs.HtmlEvents.
 Local Open Scope nat_scope.
@@ -301,44 +302,63 @@ Qed.
 (* ================================================================ transform leaves the forest alone *)
 Definition not_lorem (x : str) : bool := match match_lorem x with LNo => true | LYes _ _ _ => false end.
 
-Lemma transform_node_simple cfg pn top x rp ch :
+Lemma transform_node_pre_simple cfg pn top x rp ch :
   x <> [] -> not_lorem x = true ->
-  fst (transform_node cfg pn top (ANode (Some x) None rp None ch false)) = ANode (Some x) None rp None ch false.
+  fst (transform_node_pre cfg pn top (ANode (Some x) None rp None ch false)) = ANode (Some x) None rp None ch false.
 Proof.
   intros Hne Hl. destruct x as [|c x]; [contradiction|]. unfold not_lorem in Hl.
-  unfold transform_node. cbn [nonempty merge_attributes].
+  unfold transform_node_pre. cbn [nonempty merge_attributes].
   destruct (match_lorem (c :: x)); [|discriminate]. cbn [nonempty]. rewrite !andb_false_r.
   destruct (opt_str_eqb (Some (c :: x)) s_label && has_input (ANode (Some (c :: x)) None rp None ch false)); reflexivity.
 Qed.
 
+(* with or without BEM: a node without attributes has no class names, the addon returns it unchanged *)
+Lemma transform_node_simple cfg pn top anc x rp ch :
+  x <> [] -> not_lorem x = true ->
+  exists found path,
+    transform_node cfg pn top anc (ANode (Some x) None rp None ch false) =
+      Ok (ANode (Some x) None rp None ch false, found, path).
+Proof.
+  intros Hne Hl. unfold transform_node.
+  pose proof (transform_node_pre_simple cfg pn top x rp ch Hne Hl) as Hpre.
+  destruct (transform_node_pre cfg pn top (ANode (Some x) None rp None ch false)) as [n1 found]. cbn [fst] in Hpre. subst n1.
+  destruct (mc_bem cfg).
+  - rewrite (BemProofs.bem_no_class (bem_cfg_of cfg) anc (ANode (Some x) None rp None ch false)) by reflexivity. cbn [bind]. eexists _, _. reflexivity.
+  - eexists _, _. reflexivity.
+Qed.
+
+Lemma bind_ok {A B} (r : res A) (a : A) (f : A -> res B) : r = Ok a -> bind r f = f a.
+Proof. intros ->. reflexivity. Qed.
+
 Definition tt_kids (cfg : mconfig) (nm1 : option str) :=
-  fix go (l : list anode) (pd : bool) : list anode * bool :=
+  fix go (l : list anode) (pd : bool) (pth : list pnode) : res (list anode * bool * list pnode) :=
     match l with
-    | [] => ([], pd)
+    | [] => Ok ([], pd, pth)
     | c :: r =>
-        let '(c', pd1) := transform_tree cfg (Some nm1) false pd c in
-        let '(r', pd2) := go r pd1 in
-        (c' :: r', pd2)
+        let* (c', pd1, pth1) := transform_tree cfg (Some nm1) false pd pth c in
+        let* (r', pd2, pth2) := go r pd1 pth1 in
+        Ok (c' :: r', pd2, pth2)
     end.
 
-Lemma transform_tree_eq cfg pn top pending nm v rp at_ ch sc :
-  transform_tree cfg pn top pending (ANode nm v rp at_ ch sc) =
+Lemma transform_tree_eq cfg pn top pending anc nm v rp at_ ch sc :
+  transform_tree cfg pn top pending anc (ANode nm v rp at_ ch sc) =
   let hit := pending && is_input_name nm in
   let n0 := if hit then ANode nm v rp (drop_empty_named s_id at_) ch sc else ANode nm v rp at_ ch sc in
-  let '(n1, found) := transform_node cfg pn top n0 in
+  let* (n1, found, path) := transform_node cfg pn top anc n0 in
   let pending1 := (pending && negb hit) || found in
   match n1 with
   | ANode nm1 v1 rp1 at1 _ sc1 =>
-      let '(ch', pending2) := tt_kids cfg nm1 ch pending1 in
-      (ANode nm1 v1 rp1 at1 ch' sc1, pending2)
+      let* (ch', pending2, path2) := tt_kids cfg nm1 ch pending1 path in
+      Ok (ANode nm1 v1 rp1 at1 ch' sc1, pending2, firstn (length anc) path2)
   end.
 Proof. reflexivity. Qed.
 
 Lemma transform_tree_simple cfg P :
   (forall x, P x = true -> x <> [] /\ not_lorem x = true) ->
-  forall n, simple P n = true -> forall pn top pending, fst (transform_tree cfg pn top pending n) = n.
+  forall n, simple P n = true -> forall pn top pending anc,
+    exists pd path, transform_tree cfg pn top pending anc n = Ok (n, pd, path).
 Proof.
-  intros HP. induction n as [nm v rp at_ ch sc IH] using anode_ind'. intros Hs pn top pending.
+  intros HP. induction n as [nm v rp at_ ch sc IH] using anode_ind'. intros Hs pn top pending anc.
   destruct (simple_inv P _ Hs) as [x [E [Hp Hch]]]. cbn [an_repeat an_children] in *.
   injection E as -> -> -> ->. destruct (HP x Hp) as [Hne Hl].
   rewrite transform_tree_eq. cbv zeta.
@@ -347,28 +367,27 @@ Proof.
                 else ANode (Some x) None rp None ch false) = ANode (Some x) None rp None ch false)
     by (destruct (pending && is_input_name (Some x)); reflexivity).
   rewrite E0.
-  destruct (transform_node cfg pn top (ANode (Some x) None rp None ch false)) as [n1 found] eqn:Etn.
-  assert (En1 : n1 = ANode (Some x) None rp None ch false).
-  { change n1 with (fst (n1, found)). rewrite <- Etn. apply transform_node_simple; assumption. }
-  subst n1.
-  assert (Hgo : forall pd, fst (tt_kids cfg (Some x) ch pd) = ch).
-  { clear Hs E0 Etn. induction ch as [|c k IHk]; intros pd; [reflexivity|].
+  destruct (transform_node_simple cfg pn top anc x rp ch Hne Hl) as [found [path0 Etn]].
+  assert (Hgo : forall pd pth, exists pd2 pth2, tt_kids cfg (Some x) ch pd pth = Ok (ch, pd2, pth2)).
+  { clear Hs E0 Etn. induction ch as [|c k IHk]; intros pd pth; [eexists _, _; reflexivity|].
     inversion IH as [|c' k' Hc Hk']; subst. cbn [forallb] in Hch. apply andb_prop in Hch. destruct Hch as [H1 H2].
-    specialize (Hc H1 (Some (Some x)) false pd). cbn [tt_kids]. fold (tt_kids cfg (Some x)).
-    destruct (transform_tree cfg (Some (Some x)) false pd c) as [c1 pd1]. cbn [fst] in Hc. subst c1.
-    specialize (IHk Hk' H2 pd1). destruct (tt_kids cfg (Some x) k pd1) as [r' pd2].
-    cbn [fst] in *. subst r'. reflexivity. }
-  match goal with |- context [tt_kids cfg (Some x) ch ?pd] => specialize (Hgo pd); destruct (tt_kids cfg (Some x) ch pd) as [ch' pd2] end.
-  cbn [fst] in *. subst ch'. reflexivity.
+    destruct (Hc H1 (Some (Some x)) false pd pth) as [pd1 [pth1 Ec]]. cbn [tt_kids]. fold (tt_kids cfg (Some x)).
+    rewrite Ec. cbn [bind].
+    destruct (IHk Hk' H2 pd1 pth1) as [pd2 [pth2 Ek]]. rewrite Ek. cbn [bind]. eexists _, _. reflexivity. }
+  destruct (Hgo (pending && negb (pending && is_input_name (Some x)) || found) path0) as [pd2 [pth2 Eg]].
+  exists pd2, (firstn (length anc) pth2).
+  eapply eq_trans; [apply (bind_ok _ _ _ Etn)|]. cbv beta iota.
+  eapply eq_trans; [apply (bind_ok _ _ _ Eg)|]. reflexivity.
 Qed.
 
 Lemma transform_list_simple cfg P :
   (forall x, P x = true -> x <> [] /\ not_lorem x = true) ->
-  forall l, forallb (simple P) l = true -> transform_list cfg l = l.
+  forall l, forallb (simple P) l = true -> transform_list cfg l = Ok l.
 Proof.
   intros HP. induction l as [|c l IH]; intros H; [reflexivity|].
   cbn [forallb] in H. apply andb_prop in H. destruct H as [H1 H2].
-  cbn [transform_list]. rewrite (transform_tree_simple cfg P HP c H1), (IH H2). reflexivity.
+  cbn [transform_list]. destruct (transform_tree_simple cfg P HP c H1 None true false []) as [pd [path E]].
+  rewrite E. cbn [bind]. rewrite (IH H2). reflexivity.
 Qed.
 
 (* ================================================================ the formatter's tag events *)
@@ -497,7 +516,7 @@ Proof.
   exists (html_format (xc_o x) forest). split.
   - unfold expand_markup, markup_parse. fold m. unfold parse_abbr. rewrite Ht. fold m in Hp. rewrite Hp, Hcv. cbn [bind].
     rewrite walk_resolve_eq. rewrite (walk_list_simple m [] _ P HP1 forest Hsimple). cbn [bind].
-    rewrite (transform_list_simple m P HP2 forest Hsimple).
+    rewrite (transform_list_simple m P HP2 forest Hsimple). cbn [bind].
     rewrite (stringify_html _ _ _ Hsyn). reflexivity.
   - rewrite (format_nest (xc_o x) P HP3 forest Hclean Hsimple). rewrite Hshape. reflexivity.
 Qed.
